@@ -346,6 +346,36 @@ def coupled_cases(thorough=False):
     return cases
 
 
+def cascade_cases(thorough=False):
+    """K consecutive references, each one below a length boundary only as long as the NEXT one has not been lengthened: reference i
+    (m bytes at first) has operand B - K + i, so reference K must grow, which moves every label by one byte, which makes reference
+    K-1 grow, and so on back to the first - the layout needs about K passes.  Forward (labels behind the references) and backward
+    (labels in front: the operand is negative and the NFIX boundaries are B-ish too) chains, for every boundary and several mnemonics."""
+    cases = []
+    for m, B in ((1, 16), (2, 256), (3, 4096)):
+        kmax = (B + m) // (m + 1)
+        ks = [k for k in (2, 3, 5, 8, 9, 10, 11, 12, 20, 40, 60, 86, 200 if thorough else 0, 1000 if thorough else 0) if 2 <= k <= kmax]
+        for K in ks:
+            for mn in (('BR', 'BRZ', 'LDAP') if thorough or K in (9, 10, 11, 12, 20) else ('BR',)):
+                names = ['c%d' % i for i in range(1, K + 1)]
+                refs = [ref(mn, n) for n in names]
+                first = B - K + (m + 1)                 # offset of the first label when every reference has m bytes (references start at 0)
+                here = m * K
+                labs = []
+                for n in names:
+                    labs += [lab(n)] + filler(m + 1)
+                prog = refs + filler(first - here) + labs + [imm('LDAC', 0)]
+                cases.append({'id': 'cascade:fwd:%d:%d:%s' % (B, K, mn), 'prog': prog})
+                # the same chain one byte short of the boundary (nothing grows) and one byte over (everything has grown at once)
+                for dlt in (-1, 1):
+                    if first - here + dlt >= 0:
+                        prog2 = refs + filler(first - here + dlt) + labs + [imm('LDAC', 0)]
+                        cases.append({'id': 'cascade:fwd%+d:%d:%d:%s' % (dlt, B, K, mn), 'prog': prog2})
+    for c in cases:
+        c['src'] = src_of(c['prog'])
+    return cases
+
+
 def value_list(rng, nrandom):
     vals = set([0, -1, 1, 2 ** 31 - 1, -2 ** 31, 2 ** 31 - 2, -2 ** 31 + 1, -2 ** 31 + 2])
     for k in range(1, 8):
@@ -410,7 +440,7 @@ def layout_cases(tier, d, rng):
         # every coupled layout is ASSEMBLED (non-termination needs no oracle); a seeded third is walked by TLC
         for c in cc:
             c['notlc'] = rng.random() > 0.33
-    cases = sweep_cases(thorough) + cc + random_cases(rng, 2500 if not thorough else 15000)
+    cases = sweep_cases(thorough) + cc + cascade_cases(thorough) + random_cases(rng, 2500 if not thorough else 15000)
     vals = value_list(rng, 300 if not thorough else 20000)
     for m in ('LDAC', 'LDBC', 'LDAM', 'BR', 'LDAP', 'STAI'):
         for off in range(0, len(vals), 700):
